@@ -175,7 +175,7 @@ func init() {
 		dirs:  []string{"."},
 		level: "other",
 		jobs: func(tier string) []job {
-			js := []job{J(".", "VX_C03_AfterDeadlineBoundWrite", 0), J(".", "VX_C03_AfterDeadlineBoundWrite", 1)}
+			js := []job{J(".", "VX_C03_AfterDeadlineBoundWrite", 0), J(".", "VX_C03_AfterDeadlineBoundWrite", 1), J(".", "VX_C03_HandlerOutlastsContextAge")}
 			add := func(a ...int) { js = append(js, J(".", "VX_C03_Frame", a...)) }
 			// mtypeMode, methodMode, unknownH, outcome, vetoStage, writeFail, nBody, pipe
 			for _, oc := range []int{0, 1, 2, 3, 4} {
